@@ -77,6 +77,13 @@ def events_for(ctx, rnd, t, i, wrap):
             s = rnd_str(rnd, ln)
             texts.append(s)
             vals.append({"t": "str", "s": cps(s)})
+        # over the limit by trailing / leading white space only (padding counts)
+        base = rnd_str(rnd, n)
+        for pad in (" ", "\t", "\n", "&nbsp;", "  "):
+            texts.append(base + pad)
+            texts.append(pad + base)
+            if not pad.startswith("&"):
+                vals.append({"t": "str", "s": cps(base + pad)})
         # entity text whose decoded length is at the limit
         texts.append("&amp;" + "a" * (n - 1))
         texts.append("&lt;" * n)
@@ -165,6 +172,10 @@ def run(ctx):
         for t in params:
             evs += events_for(ctx, rnd, t, i, wrap=(rep % 3 == 2))
             i += 1
+    # date-times and times in depth (all notations, offsets, zone names, corruptions, write and read back): the
+    # generator of C09, on this property's own seed
+    import c09
+    evs += [dict(e, id="dt-" + e["id"]) for e in c09.random_events(ctx, rnd, 1200 if quick else 30000)]
     ctx.evaluations = len(evs)
     for e in evs[:2] + evs[-3:]:
         ctx.sample(tc.describe(e))
